@@ -31,7 +31,7 @@ type gen struct {
 	inFrag  *gFrag
 }
 
-var twins = map[string]bool{"t": true, "tl": true, "to": true, "ta": true}
+var twins = map[string]bool{"t": true, "tl": true, "to": true, "ta": true, "tol": true, "ton": true}
 
 func (g *gen) visible(f schema.FeatureSet) bool { return f.IsSubsetOf(g.w.Features) }
 
